@@ -27,8 +27,46 @@ pub enum D {
 /// Closed interval in the model; `None` = unbounded on that side.
 #[derive(Clone, Copy, PartialEq, Eq, Hash, Debug, Serialize, Deserialize)]
 pub struct Iv {
+    #[serde(with = "opt_c")]
     pub lo: Option<C>,
+    #[serde(with = "opt_c")]
     pub hi: Option<C>,
+}
+
+/// JSON form of a value code: a plain JSON integer (all codes fit `i64` or
+/// `u64`); serde's buffered enum representation cannot carry `i128`.
+mod opt_c {
+    use serde::{Deserialize, Deserializer, Serializer};
+    pub fn serialize<S: Serializer>(v: &Option<i128>, s: S) -> Result<S::Ok, S::Error> {
+        match v {
+            None => s.serialize_none(),
+            Some(x) => {
+                if let Ok(i) = i64::try_from(*x) {
+                    s.serialize_some(&i)
+                } else if let Ok(u) = u64::try_from(*x) {
+                    s.serialize_some(&u)
+                } else {
+                    s.serialize_some(&x.to_string())
+                }
+            }
+        }
+    }
+    pub fn deserialize<'de, D: Deserializer<'de>>(d: D) -> Result<Option<i128>, D::Error> {
+        #[derive(Deserialize)]
+        #[serde(untagged)]
+        enum N {
+            I(i64),
+            U(u64),
+            S(String),
+        }
+        let o: Option<N> = Option::deserialize(d)?;
+        o.map(|n| match n {
+            N::I(i) => Ok(i as i128),
+            N::U(u) => Ok(u as i128),
+            N::S(s) => s.parse::<i128>().map_err(serde::de::Error::custom),
+        })
+        .transpose()
+    }
 }
 
 #[derive(Clone, Copy, PartialEq, Eq, Hash, Debug)]
